@@ -53,7 +53,7 @@ func c01Case(tier string, seed int64, idx int, scratch string) rt.CaseResult {
 	p := seqrun.Profile{
 		Steps: tierN(tier, 40, 80), Keys: keys[:len(keys)-0], Lens: lens, MaxOpen: 0,
 		TagPrefix: fmt.Sprintf("h%d-", idx),
-		W:         map[string]int{"set": 20, "setreader": 12, "create": 12, "delete": 10, "get": 8, "getreader": 8, "getkeys": 5, "emptykey": 4, "collect": 3, "drain": 2},
+		W:         map[string]int{"set": 20, "setreader": 12, "create": 12, "delete": 10, "get": 8, "getreader": 8, "getreader_gc": 3, "getkeys": 5, "emptykey": 4, "collect": 3, "drain": 2},
 	}
 	// "never-written" must never be written: generate with the other keys for writes
 	steps := seqrun.Generate(rng, p)
